@@ -82,7 +82,7 @@ def listerLine (st : LState) (e : SExp) : LState × String :=
       let cycle := st.hi + st.latency + st.delay + 5000
       if stopAt > lastAct + cycle then
         (st, s!"reject C13 no list activity for {stopAt - lastAct}us before the stop (period {st.period}, latency {st.latency}, delay {st.delay})")
-      else if st.lists.length < 8 then (st, s!"reject C13 only {st.lists.length} lists in 12 cycles")
+      else if (st.lists.length + 1) * cycle < stopAt then (st, s!"reject C13 only {st.lists.length} lists in {stopAt}us (a cycle takes at most {cycle}us)")
       else if doneSoon != "true" then (st, "reject C12/C13 the lister is not done 50ms after it was told to stop")
       else (st, "ok")
   | .list [.atom "end"] => (st, "ok")
